@@ -3,7 +3,7 @@
 From Coq Require Import NArith Znumtheory Permutation.
 From BV Require Import lib.Ints model.CryptoBase model.MuHash proofs.MuHashArith proofs.MuHashLemmas proofs.MuHashVal
   model.Index model.IndexCoinStats model.IndexTx model.IndexFilter model.IndexSim
-  proofs.IndexCoinStatsOps proofs.IndexCoinStatsHist proofs.IndexCoinStatsUtxo proofs.IndexMain proofs.IndexRefuted.
+  proofs.IndexCoinStatsOps proofs.IndexCoinStatsHist proofs.IndexCoinStatsUtxo proofs.IndexMain proofs.IndexRefuted proofs.IndexFilterLemmas.
 Local Open Scope Z_scope.
 
 (* ---------------- MuHash3072 (src/crypto/muhash.cpp) ---------------- *)
@@ -127,6 +127,19 @@ Theorem C21_replay_eq_scratch : forall i c y u,
   stats_agree (entry_of y) (compute_utxo_stats u) = true.
 Proof. exact main_C21_replay_eq_scratch. Qed.
 Print Assumptions C21_replay_eq_scratch.
+
+(* ---------------- BlockFilterIndex (src/index/blockfilterindex.cpp) ---------------- *)
+
+(* After ANY history of CustomAppend / CustomRemove that follows a block tree (each connected block has
+   height = length of the chain and prev = hash of the top; genesis is never disconnected), LookupFilter /
+   LookupFilterHeader of every block of the current chain return its filter hash and the BIP157 header chain
+   computed from the chain's blocks up to it:  header_k = Hash(filter_hash_k || header_{k-1}),  header_{-1} = 0. *)
+Theorem C21_blockfilter_header_chain_of_active_blocks : forall steps x c k b,
+  bf_hist_ok [] steps -> bf_run bf_index0 [] steps = Ok (x, c) -> nth_error c k = Some b ->
+  bf_lookup x (b_hash b) (b_height b) =
+  Some {| fv_hash := b_filter_hash b; fv_header := chain_filter_header (firstn (S k) c) |}.
+Proof. exact bf_lookup_chain. Qed.
+Print Assumptions C21_blockfilter_header_chain_of_active_blocks.
 
 (* ---------------- BaseIndex with restarts (src/index/base.cpp) ---------------- *)
 
